@@ -27,7 +27,7 @@ QUICK_UNITS = [
     "src/Variogram/Vario.cpp", "src/Variogram/AVario.cpp",
     "src/Neigh/ANeigh.cpp", "src/Neigh/NeighBench.cpp", "src/Neigh/NeighMoving.cpp", "src/Neigh/NeighCell.cpp", "src/Basic/Rotation.cpp", "src/Basic/Tensor.cpp", "src/LinearOp/IProjMatrix.cpp", "src/Basic/Grid.cpp",
     "src/Anamorphosis/AnamEmpirical.cpp", "src/Anamorphosis/AnamHermite.cpp", "src/Simulation/CalcSimuTurningBands.cpp", "src/Basic/Indirection.cpp", "src/Skin/Skin.cpp",
-    "src/Spatial/SpatialIndices.cpp", "src/Stats/PCA.cpp", "src/Drifts/DriftList.cpp", "src/Fractures/FracList.cpp", "src/Polynomials/Chebychev.cpp",
+    "src/Spatial/SpatialIndices.cpp", "src/Stats/PCA.cpp", "src/Drifts/DriftList.cpp", "src/Fractures/FracList.cpp", "src/Polynomials/Chebychev.cpp", "src/Db/DbGrid.cpp", "src/Polygon/Polygons.cpp",
 ]
 
 
@@ -1136,6 +1136,7 @@ def r10_6b(prog, chk):
     chk.floor("R10.6b", n, 4)
 
 
+INCR = ("++", "post++", "pre++")        # counting into an element (`m[i]++`) accumulates like `m[i] += 1`
 GROW_CLASSES = ("Vario", "FracList")       # classes whose private helpers rebuild member lists at each calculation (confirmed by reading)
 
 
@@ -1149,7 +1150,8 @@ def r10_8(prog, chk, classes=None, floor_n=10):
     if classes is None:
         # every analysed class that accumulates into a subscripted member
         classes = sorted({f.cls for f in prog.funcs if f.cls and f.body is not None and any(
-            x["k"] in ("Assign", "OpCall") and x.get("op") == "+=" and x.get("c") and x["c"][0] is not None and x["c"][0]["k"] in ("Index", "OpCall")
+            ((x["k"] in ("Assign", "OpCall") and x.get("op") == "+=") or (x["k"] == "UnOp" and x.get("op") in INCR)) and x.get("c") and
+            x["c"][0] is not None and x["c"][0]["k"] in ("Index", "OpCall")
             for x in f.walk())} | set(required) | {k_ for k_ in GROW_CLASSES if any(f.cls == k_ and f.body is not None for f in prog.funcs)})
     for K in classes:
         meths = [f for f in prog.funcs if f.cls == K and f.body is not None]
@@ -1171,7 +1173,8 @@ def r10_8(prog, chk, classes=None, floor_n=10):
         grow = {}
         for f in meths:
             for x in f.walk():
-                if x["k"] in ("Assign", "OpCall") and x.get("op") == "+=" and x.get("c"):
+                if ((x["k"] in ("Assign", "OpCall") and x.get("op") == "+=") or (x["k"] == "UnOp" and x.get("op") in INCR and x["c"][0] is not None and
+                                                                                   x["c"][0]["k"] in ("Index", "OpCall"))) and x.get("c"):
                     fl = root_field(x["c"][0])
                     if fl:
                         acc.setdefault(fl, {}).setdefault(f.usr, []).append(x)
@@ -1431,6 +1434,80 @@ def r10_11(prog, chk):
     chk.floor("R10.11", n, 4)
 
 
+def r10_12(prog, chk):
+    """R10.12 - an output argument is written before it is read.  When a function receives `double* p` / `int* p`, reads `*p` on a path
+    that has not stored into it (nor handed `p` to another function), and a caller passes the address of a local it never initialised,
+    the result is computed from whatever the stack held: it depends on the calls made before (Polygons::getExtension only UPDATED the
+    bounds it was given and DbGrid::resetFromPolygon gave it four uninitialised doubles: the grid covering a polygon was arbitrary)."""
+    from e1_paths import CFG
+
+    def strip(e):
+        while e is not None and e["k"] in ("Cast", "Paren") and e.get("c"):
+            e = e["c"][0]
+        return e
+
+    def deref_of(e, d):
+        e = strip(e)
+        return e is not None and e["k"] == "UnOp" and e.get("op") == "*" and strip(e["c"][0]) is not None and \
+            strip(e["c"][0])["k"] == "DeclRefExpr" and strip(e["c"][0]).get("d") == d
+    summ = {}
+    for f in prog.funcs:
+        if f.body is None or f.cfg is None:
+            continue
+        for k, p_ in enumerate(f.params):
+            if p_["t"].replace(" ", "") not in ("double*", "int*"):
+                continue
+            d = p_["d"]
+            is_write = lambda y, d=d: (y["k"] == "Assign" and y.get("op") == "=" and deref_of(y["c"][0], d)) or \
+                (y["k"] in ("Call", "MCall", "Construct") and any(a is not None and strip(a) is not None and strip(a)["k"] == "DeclRefExpr" and
+                                                                 strip(a).get("d") == d for a in call_args(y)))
+            lhs = {strip(y["c"][0])["i"] for y in f.walk() if y["k"] == "Assign" and y.get("op") == "=" and deref_of(y["c"][0], d)}
+            reads = [x for x in f.walk() if deref_of(x, d) and x["i"] not in lhs]
+            if not reads:
+                continue
+            g = CFG(f)
+            writes = [y for y in f.walk() if is_write(y) and g.pos_of(y) is not None]
+            for r in reads:
+                holds_r = lambda y, r=r: any(z["i"] == r["i"] for z in walk(y)) and not is_write(y)
+                w = g.search(g.entry_pos(), is_target=holds_r, is_barrier=is_write)
+                # definite: the read comes first on EVERY path (each store into *p is dominated by it); a store that some path
+                # executes before the read (a loop that may or may not find the diagonal term...) leaves the question to the data
+                if w is not None and all(g.dominated_by(y, holds_r) for y in writes):
+                    summ[(f.name, k)] = (f, p_["n"], r)
+                    break
+    n = 0
+    for f in sorted(prog.funcs, key=lambda x: (x.file, x.line)):
+        if f.body is None:
+            continue
+        uninit = {x["d"]: x for x in f.walk() if x["k"] == "VarDecl" and x.get("t") in ("double", "int") and (not x.get("c") or x["c"][0] is None)}
+        if not uninit:
+            continue
+        for c in f.calls():
+            for k, a in enumerate(call_args(c)):
+                a = strip(a)
+                if a is None or a["k"] != "UnOp" or a.get("op") != "&":
+                    continue
+                v = strip(a["c"][0])
+                if v is None or v["k"] != "DeclRefExpr" or v.get("d") not in uninit:
+                    continue
+                d, line = v["d"], c.get("l", 0)
+                touched = any((y["k"] in ("Assign", "CompoundAssign") and strip(y["c"][0]) is not None and strip(y["c"][0]).get("d") == d and y.get("l", 0) <= line) or
+                              (y["k"] == "UnOp" and y.get("op") == "&" and strip(y["c"][0]) is not None and strip(y["c"][0]).get("d") == d and y.get("l", 0) < line)
+                              for y in f.walk())
+                if touched:
+                    continue
+                n += 1
+                hit = summ.get((c.get("callee") or "", k))
+                if hit:
+                    chk.analysed(f)
+                chk.ob("R10.12", "%s: `%s` receives the address of the uninitialised `%s` as an output only" % (f.name, (c.get("callee") or "?"), v["n"]),
+                       f.loc(c), hit is None,
+                       detail=None if hit is None else "%s reads `*%s` (line %s) on a path that has not written it: the value comes from the stack of the caller" % (
+                           hit[0].name, hit[1], hit[0].loc(hit[2]).split(":")[-1]),
+                       key="R10.12|%s|%s|%s" % (f.name, c.get("callee"), v["n"]), nontrivial=hit is not None)
+    chk.floor("R10.12", n, 30)
+
+
 def r10_9(prog, chk):
     """R10.9 - polarity of the neighbourhood memo.  ANeigh::select() reuses the memorised neighbourhood of the previous
     target exactly when hasChanged() answers false.  An override that answers with a SAMENESS predicate (a function that
@@ -1567,6 +1644,7 @@ def main(tier):
     r10_8(prog, chk)
     r10_10(prog, chk)
     r10_11(prog, chk)
+    r10_12(prog, chk)
     r10_9(prog, chk)
     r10_7(prog, chk, tier, units)
     return chk.finish()
